@@ -165,5 +165,5 @@ def enum_fixed(tier):
 
 FAMILIES = [
     Family('fixed', lambda ctx, case: check_net(ctx, case), enumerate=enum_fixed),
-    Family('networks', lambda ctx, case: check_net(ctx, case), strategy=lambda tier: net_case(), n=(400, 150000)),
+    Family('networks', lambda ctx, case: check_net(ctx, case), strategy=lambda tier: net_case(), n=(3000, 150000)),
 ]
